@@ -136,6 +136,14 @@ CHECKS = {
                      "enumerated; every completed schedule must reproduce the serial results. The first schedule is replayed for determinism.",
                 note="Sequential consistency (DRF-SC argument); memcpy/memset intrinsics and libc internals are not instrumented - the free-running 16-thread TSan "
                      "pass (sampled, cross-check only) covers those; more than 3 threads only there."),
+    "C18": dict(level="exploration", engine="ENUM", ref="4/C18",
+                technique="exhaustive enumeration of every C++ wrapper instantiation over the C03 argument product through two drivers (C and C++), record-by-record comparison, leak accounting and ASan",
+                text="A translation unit generated from xraylib++.h instantiates all 148 wrapper entry points (fail-closed lexer); the same driver main() is linked once "
+                     "with the C table and once with the C++ table, both receive identical argument columns (C03 product) and their records are compared: same value bits / "
+                     "object fields when C succeeds, exception of the mapped type with the C message exactly when C reports an error, equal live-block balance per "
+                     "call (leaks keyed by allocation site), no extra sanitizer report; wrapper objects are used after the C originals were released.",
+                note="NULL strings / NULL crystals cannot be expressed through std::string / Struct& overloads and are skipped on the C++ side (counted); "
+                     "bad_alloc only by type (allocation failure is not injected); quick strides each plan to 400k tuples."),
 }
 NOT_YET = {}
 ALL = ["C%02d" % i for i in range(1, 21)]
